@@ -1,7 +1,8 @@
-"""C16 -- const-ness propagates.  Proof: coq/Properties/Properties_C16.v (const automaton, all path lengths).
+"""C16 -- const-ness propagates.  Proof: coq/Properties/Properties_C16.v (const automaton, all path lengths; the alphabet holds the
+access / view-forming operations, the projections and casts, the conversions between handle kinds, view construction, decay).
 Tie: every (state, operation) row of the automaton is a compiled probe against core.INCLUDE (gen/const_probes.py),
 compared with the extracted model; independently of the model the property's own quantifier is enumerated (every
-access path of depth <= 2 / <= 3 from the six kinds of root, D = 1..3) and monitored; run-time witnesses
+access path of depth <= 2 / <= 3 from the twelve kinds of root, D = 1..3) and monitored; run-time witnesses
 (harness/h_const_witness.cpp) show that what compiles really writes."""
 import glob
 import hashlib
@@ -21,34 +22,50 @@ DRIVER = os.path.join(core.BIN, "driver_c16")
 # ---------------------------------------------------------------------------------------------------
 # the property's predicates, restated here on the probe vocabulary (independent of the Coq model)
 # ---------------------------------------------------------------------------------------------------
+def pconst(pf):
+    """the reference of a pointer family is not a mutable one"""
+    return pf in ("1", "TmC", "TcC", "TmV", "TcV", "S1")
+
+
 def ro(st):
     """read-only typed expression: const array / const-qualified view, const_subarray, const_iterator,
-    anything over a pointer to const, reference to const element"""
+    anything over a pointer to const or over a transform_ptr whose reference is const / a value, reference to const element"""
     k, d, c, cat = st.split(".")
     tc = (c == "c")
-    if k in ("Arr", "SArr", "ARef0", "Sub0"):
+    pre, ci, pf = gen.parse_kind(k)
+    if pre in ("Arr", "SArr", "ArrS", "Elem"):
         return tc
-    if k in ("ARef1", "Sub1", "CSub0", "CSub1"):
+    if pre in ("ARef", "Sub", "ER"):
+        return pconst(pf) or tc
+    if pre == "CSub":
         return True
-    if k.startswith("It") or k.startswith("SP"):
-        return k[2] == "1" or k[3] == "1"
-    if k == "ER0":
-        return tc
-    if k == "ER1":
-        return True
-    if k in ("EI0", "Cu0", "Pt0"):
-        return False
-    if k in ("EI1", "Cu1", "Pt1"):
-        return True
-    if k == "Elem":
-        return tc
+    if pre in ("It", "SP"):
+        return ci == "1" or pconst(pf)
+    if pre in ("EI", "Cu", "Pt"):
+        return pconst(pf)
     raise ValueError(st)
+
+
+def assignable_kind(k, cat):
+    """element lvalue, view, array or element range over a pointer that yields lvalues (a move_ptr view hands out int&&)"""
+    if k == "Elem":
+        return cat == "L"
+    if k in gen.VIEW_KINDS + gen.RANGE_KINDS:
+        return gen.pf_of(k) != "M"
+    return False
 
 
 MUTATORS = gen.MUTATOR_NAMES
 STEP_OPS = gen.ACCESS_NAMES + gen.LANG_NAMES            # the operations paths are built from
 INTENDED_CONST = set(gen.CONST_MAKING) | {"Broadcasted"}  # operations meant to give a read-only result
-OWNING = ("Arr", "SArr")
+OWNING = ("Arr", "SArr", "ArrS")
+# A prvalue and an xvalue of the same type are one state (category R), but constructing a T from a prvalue T is no constructor call
+# (guaranteed elision), so `T(prvalue T)` is well-formed where `T(xvalue T)` is not: the view-construction ops are composed only
+# as the single step on a root.  transform_ptr kinds are functor-agnostic, the conversion targets carry the canonical functor of
+# their family (&S::b; LV for the value families): no conversion step after a projection with another functor.
+NONCANON_FUNCTOR_OPS = {"ETransLR", "ETransLC"}
+# the library's named ways out of const-ness (its const_cast): never reported, counted
+ESCAPES = {"ConstCast", "MutableBase"}
 # the property's own path alphabet {indexing, call syntax, begin/end/cbegin, dereference, elements(), home(), front/back,
 # the view-forming operations} (+ the language-level steps that make the roots "held by auto&& / auto const&").  The const
 # clause (nothing writable from const) is monitored on EVERY operation of the vocabulary; the mutable clause ("the same paths
@@ -59,16 +76,27 @@ ALPHABET = {"Index", "Call0", "Call1", "CallAll", "CallRng", "CallRngIdx", "Call
             "Diagonal", "Partitioned", "Chunked", "Halved", "Flatted", "Reindexed", "Blocked", "Range", "Stenciled", "Broadcasted",
             "Move", "BindRef", "BindCRef"}
 
-# the site of the current tree where a read-only receiver still hands out something mutable: (receiver kind, op) -> site.
+# the sites of the current tree where a read-only receiver still hands out something mutable: (receiver kind, op, D) -> site.
+# An independent restatement of the Coq predicate `hole`; every site is a known finding with its own match field.
 # (iter-index, csub-elements, origin, csub-addressof, sptr-base were repaired by 0cc5cd0, c42ae62, 0310609, 49fc935, f94579a:
 # a violation there is an ordinary VIOLATION again.)
-SITES = {
-    ("It10", "Base"): "iter-base",
-}
-
-
-def site_of(kind, op):
-    return SITES.get((kind, op), "row:%s.%s" % (kind, op))
+def site_of(kind, op, d=None):
+    pre, ci, pf = gen.parse_kind(kind)
+    if pre == "It" and ci == "1" and op == "Base" and not pconst(pf):
+        return "iter-base"
+    if pre == "Pt" and op == "Base" and pf in ("TmC", "TmV"):
+        return "tptr-base"
+    if pre == "SP" and ci == "1" and op in gen.CONV_NAMES and op[3] == "0":
+        return "sptr-conv"
+    if op in gen.CONV_NAMES and op[4] == "m" and pf == "TmC" and pre in ("Pt", "EI", "SP", "It"):
+        return "tptr-conv"
+    if op == "StaticCast" and kind in gen.VIEW_KINDS:
+        return "static-cast-deprecated"
+    if op == "MemberCast" and kind in gen.S_VIEW_KINDS and d == 1:
+        return "member-cast-1d"
+    if kind == "CSubS0" and op in ("ETransMP", "ETransLR", "MemberCast"):
+        return "csub-projection"
+    return "row:%s.%s" % (kind, op)
 
 
 def canon(st):
@@ -88,10 +116,11 @@ def step_observed(obs, st, op):
     out = obs.get((base, op))
     if out is None:
         return None
-    if off and out.startswith("To:") and out[3:] not in ("Val", "Other", "Void"):
-        k, d, c, cat = out[3:].split(".")
+    pre = "To:Copy:" if out.startswith("To:Copy:") else "To:"
+    if off and (is_state(out) or pre == "To:Copy:"):
+        k, d, c, cat = out[len(pre):].split(".")
         if k not in gen.DIM0_KINDS and not (k.startswith("ARef") and op in ("Elements", "CElements")):
-            out = "To:%s.%d.%s.%s" % (k, int(d) + off, c, cat)
+            out = "%s%s.%d.%s.%s" % (pre, k, int(d) + off, c, cat)
     return out
 
 
@@ -100,14 +129,14 @@ def writable_state(obs, st):
 
 
 def is_state(out):
-    return out is not None and out.startswith("To:") and out[3:] not in ("Val", "Other", "Void")
+    return out is not None and out.startswith("To:") and out[3:] not in ("Val", "Other", "Void") and not out.startswith("To:Copy:")
 
 
 # ---------------------------------------------------------------------------------------------------
 # model side
 # ---------------------------------------------------------------------------------------------------
-def model_rows(maxd=3):
-    rc, out, err = core.sh([DRIVER, "rows", "--maxd", str(maxd)], timeout=120)
+def model_rows(maxd=3, maxd_new=None):
+    rc, out, err = core.sh([DRIVER, "rows", "--maxd", str(maxd), "--maxdnew", str(maxd_new or maxd)], timeout=120)
     if rc != 0:
         raise RuntimeError("driver_c16 rows: " + err[-500:])
     rows = {}
@@ -148,28 +177,35 @@ def parse_q(out):
 # ---------------------------------------------------------------------------------------------------
 # path enumeration on the observed table
 # ---------------------------------------------------------------------------------------------------
-def root_states():
+def root_states(maxd_new=3):
     out = []
     for name, _const in gen.ROOTS:
         for d in (1, 2, 3):
+            if name not in gen.OLD_ROOTS and d > maxd_new:
+                continue
             out.append((name, d, gen.ROOT_STATE[name] % d))
     return out
 
 
-def enumerate_paths(obs, depth, full_last=True, cap=None, rng=None):
+def enumerate_paths(obs, depth, full_last=True, cap=None, rng=None, maxd_new=3, step_ops=None, only_len=None):
     """All op sequences of length 1..depth over STEP_OPS from the 18 roots whose proper prefixes are well-formed
     per the observed table.  The last step is any operation not observed Hard (full_last) or only the well-formed
     ones.  Returns list of (pid, root name, D, steps[(op, kind, d)], predicted outcome text, [states along])."""
     paths = []
-    n_hard = 0
-    for rname, d0, st0 in root_states():
+    n_hard = n_out = 0
+    for rname, d0, st0 in root_states(maxd_new):
         frontier = [([], [st0])]
         for level in range(1, depth + 1):
             nxt = []
             for ops, sts in frontier:
                 cur = sts[-1]
                 k, d, _c, _cat = cur.split(".")
-                for op in STEP_OPS:
+                noncanon = any(o in NONCANON_FUNCTOR_OPS for o, _k, _d in ops)
+                for op in (step_ops or STEP_OPS):
+                    if op in gen.VCONV_NAMES and level > 1:
+                        continue      # construction of a view from a view: on a named (bound) expression only, see VCONV note
+                    if noncanon and (op in gen.CONV_NAMES or op in gen.CMP_NAMES or op in gen.VCONV_NAMES):
+                        continue      # the conversion targets are the types with the canonical functor of each family
                     out = step_observed(obs, cur, op)
                     if out is None:
                         continue
@@ -183,8 +219,12 @@ def enumerate_paths(obs, depth, full_last=True, cap=None, rng=None):
                     steps = ops + [(op, k, int(d))]
                     if wf and int(out[3:].split(".")[1]) > gen.MAXD_CANON:
                         continue
-                    paths.append((rname, d0, steps, out, sts + ([out[3:]] if wf else [])))
-                    if wf and not last:
+                    if wf and (canon(out[3:])[0], "BindRef") not in obs:      # the result is a state outside the tied table (quick: D = 3 of the projection families)
+                        n_out += 1
+                        continue
+                    if only_len is None or len(steps) == only_len:
+                        paths.append((rname, d0, steps, out, sts + ([out[3:]] if wf else [])))
+                    if wf and not last and op not in gen.VCONV_NAMES:
                         nxt.append((steps, sts + [out[3:]]))
             frontier = nxt
     if cap and len(paths) > cap:
@@ -204,15 +244,15 @@ def path_text(rname, d0, steps):
 
 
 def culprit(sts, steps, want_ro_to_mut=True):
-    """first step at which a read-only expression yields a non-read-only one (or the converse)"""
+    """first step at which a read-only expression yields a non-read-only one (or the converse): (index, kind, op, D)"""
     for i, (op, k, d) in enumerate(steps):
         if i + 1 >= len(sts):
             break
         a, b = ro(sts[i]), ro(sts[i + 1])
         if want_ro_to_mut and a and not b:
-            return i, k, op
+            return i, k, op, d
         if (not want_ro_to_mut) and (not a) and b:
-            return i, k, op
+            return i, k, op, d
     return None
 
 
@@ -267,7 +307,53 @@ WITNESS = {
     "mut.index": ("Arr.%d.m.L", ["Index"], None),
     "mut.call": ("Arr.%d.m.L", ["Call1"], None),
     "mut.fill": ("Arr.%d.m.L", ["Call0"], None),
+    # ---- follow-up 2: projections (a projection view held by auto&& / auto const&), casts, conversions between handle kinds
+    "const.proj_elements_idx": ("SubTmR.%d.c.L", ["Elements", "Index"], None),
+    "const.proj_elements_it": ("SubTmR.%d.c.L", ["Elements", "Begin", "Deref"], None),
+    "const.proj_home": ("SubTmR.%d.c.L", ["Home", "Deref"], None),
+    "const.proj_base": ("SubTmR.%d.c.L", ["Base", "Deref"], None),
+    "const.proj_call0_elements": ("SubTmR.%d.c.L", ["Call0", "Elements", "Index"], None),
+    "const.proj_lambda_elements": ("SubTmR.%d.c.L", ["Elements", "Index"], None),
+    "const.proj_lambda_home": ("SubTmR.%d.c.L", ["Home", "Deref"], None),
+    "const.proj_index": ("SubTmR.%d.c.L", lambda d: ["Index"] if d == 1 else ["Index", "Elements", "Index"], None),
+    "const.proj_begin": ("SubTmR.%d.c.L", lambda d: ["Begin", "Deref"] if d == 1 else ["Begin", "Deref", "Elements", "Index"], None),
+    "const.proj_front": ("SubTmR.%d.c.L", lambda d: ["Front"] if d == 1 else ["Front", "Elements", "Index"], None),
+    "const.proj_sliced": ("SubTmR.%d.c.L", ["Sliced", "Index"], None),
+    "const.proj_rotated": ("SubTmR.%d.c.L", ["Rotated", "Elements", "Index"], None),
+    "const.proj_arrow": ("SubTmR.%d.c.L", ["Begin", "Arrow", "Base", "Deref"], None),
+    "const.etrans_array": ("ArrS.%d.c.L", ["ETransMP", "Elements", "Index"], None),
+    "const.csub_etrans": ("ArrS.%d.c.L", ["Call0", "ETransMP", "Elements", "Index"], "csub-projection"),
+    "const.member_cast_1d": ("ArrS.%d.c.L", ["MemberCast", "Index"], "member-cast-1d"),
+    "const.ctl_member_cast": ("ArrS.%d.c.L", ["MemberCast", "Elements", "Index"], None),
+    "const.csub_member_cast": ("ArrS.%d.c.L", ["Call0", "MemberCast", "Elements", "Index"], "csub-projection"),
+    "const.ctl_reinterpret_n": ("ArrS.%d.c.L", ["ReinterpretN", "Elements", "Index"], None),
+    "const.tptr_conv": ("SubTmR.%d.c.L", ["Base", "CvI0m", "Deref"], "tptr-conv"),
+    "const.tptr_base": ("SubTmR.%d.c.L", ["Base", "Base"], "tptr-base"),
+    "mut.proj_elements_idx": ("SubTmR.%d.m.L", ["Elements", "Index"], None),
+    "mut.proj_home": ("SubTmR.%d.m.L", ["Home", "Deref"], None),
+    "mut.proj_lambda_elements": ("SubTmR.%d.m.L", ["Elements", "Index"], None),
+    "mut.member_cast": ("ArrS.%d.m.L", ["MemberCast", "Elements", "Index"], None),
+    "mut.reinterpret_n": ("ArrS.%d.m.L", ["ReinterpretN", "Elements", "Index"], None),
+    "const.ctl_iter_conv_implicit": ("Arr.%d.c.L", lambda d: ["Begin", "CvI0m", "Deref"] + ([] if d == 1 else ["Elements", "Index"]), None),
+    "const.ctl_iter_conv_explicit": ("Arr.%d.c.L", lambda d: ["Begin", "CvE0m", "Deref"] + ([] if d == 1 else ["Elements", "Index"]), None),
+    "const.ctl_iter_conv_assign": ("Arr.%d.c.L", ["Begin", "CvA0m", "Deref", "Elements", "Index"], None),
+    "mut.iter_conv": ("Arr.%d.m.L", lambda d: ["Begin", "CvI0m", "Deref"] + ([] if d == 1 else ["Elements", "Index"]), None),
+    "const.sptr_conv": ("Arr.%d.c.L", ["Call0", "AddrOf", "CvI0m", "Deref", "Elements", "Index"], "sptr-conv"),
+    "const.ctl_eiter_conv": ("Arr.%d.c.L", ["Call0", "Elements", "Begin", "CvI0m", "Deref"], None),
+    "const.static_cast": ("Arr.%d.c.L", ["StaticCast", "Elements", "Index"], "static-cast-deprecated"),
+    "const.ctl_reinterpret": ("Arr.%d.c.L", ["Reinterpret", "Elements", "Index"], None),
+    "const.escape_mutable_base": ("Arr.%d.c.L", ["MutableBase", "Deref"], "escape"),
+    "const.escape_const_array_cast": ("Arr.%d.c.L", ["ConstCast", "Elements", "Index"], "escape"),
+    "const.ctl_moved_view": ("SubM.%d.c.L", ["Elements", "Index"], None),
+    "const.ctl_apply": ("Arr.%d.c.L", ["Apply"], None),
+    "const.ctl_elements_at": ("Arr.%d.c.L", ["ElementsAt"], None),
+    "mut.static_cast": ("Arr.%d.m.L", ["StaticCast", "Elements", "Index"], None),
+    "mut.reinterpret": ("Arr.%d.m.L", ["Reinterpret", "Elements", "Index"], None),
 }
+
+
+def witness_ops(spec, d):
+    return spec[1](d) if callable(spec[1]) else spec[1]
 # witnesses whose model path ends before the element (the write in the harness is through a mutator / deeper step
 # whose acceptance is the model's `writable` of the last state, or, for the controls ending in a view, its negation)
 T_EXPECT = {
@@ -349,10 +435,11 @@ def check_rows(rep, mrows, rows, tier, stats):
     predicted = set(k for k, v in mrows.items() if v in ("Hard", "NoDef"))
     log = {}
     t0 = time.time()
-    obs, diag = P.observe_rows(rows, predicted_hard=predicted, log=log)
+    obs, diag = P.observe_rows(rows, predicted_hard=predicted, log=log, predicted_kind={k: v for k, v in mrows.items() if k in predicted})
     stats["rows_wall_s"] = round(time.time() - t0, 1)
     stats["row_shards"] = log.get("shards")
     stats["rows_compiled_alone"] = log.get("singles")
+    stats["rows_must_fail_batched"] = log.get("must_fail_rows_batched")
     stats["rows_unexpectedly_breaking_a_shard"] = log.get("unexpected_broken")
     n_bad = 0
     for st, op in rows:
@@ -379,9 +466,10 @@ def check_rows(rep, mrows, rows, tier, stats):
 
 def monitor_rows(rep, obs, stats):
     """property monitors on the library's own single-step table (independent of the model)"""
-    n_holes = n_wr = n_gap = 0
+    n_holes = n_wr = n_gap = n_escape = 0
     for (st, op), out in sorted(obs.items()):
         k = st.split(".")[0]
+        d = int(st.split(".")[1])
         if out == "Mut" and ro(st):
             n_wr += 1
             rep.report({"clause": "const", "site": "mutator:%s.%s" % (k, op), "found_by": "monitor"},
@@ -390,9 +478,11 @@ def monitor_rows(rep, obs, stats):
                        "read-only %s accepts %s" % (st, op))
         if is_state(out):
             s2 = out[3:]
-            if ro(st) and not ro(s2):
+            if ro(st) and not ro(s2) and op in ESCAPES:
+                n_escape += 1
+            elif ro(st) and not ro(s2):
                 n_holes += 1
-                rep.report({"clause": "const", "site": site_of(k, op), "found_by": "monitor"},
+                rep.report({"clause": "const", "site": site_of(k, op, d), "found_by": "monitor"},
                            "row %s %s\n" % (st, op),
                            {"found-by": "monitor: a read-only expression yields a mutable one", "implementation-said": out,
                             "probe": row_tu_text(st, op)},
@@ -407,22 +497,31 @@ def monitor_rows(rep, obs, stats):
                            "mutable %s --%s--> read-only %s" % (st, op, s2))
     for st in sorted(set(s for s, _ in obs)):
         k, d, c, cat = st.split(".")
-        if not ro(st) and (k in gen.VIEW_KINDS + gen.RANGE_KINDS or (k == "Elem" and cat == "L")) and not writable_state(obs, st):
+        if not ro(st) and assignable_kind(k, cat) and not writable_state(obs, st):
             rep.report({"clause": "mutable", "site": "nowrite:%s" % k, "found_by": "monitor"}, "state %s\n" % st,
                        {"found-by": "monitor: a mutable element lvalue / view / range accepts no mutator"}, "mutable %s accepts no mutator" % st)
     stats["monitor_hole_rows"] = n_holes
+    stats["monitor_escape_rows_const_array_cast_mutable_base"] = n_escape
     stats["monitor_writable_readonly_rows"] = n_wr
     stats["monitor_gap_rows"] = n_gap
 
 
-def check_paths(rep, obs, tier, seed, stats):
+def check_paths(rep, obs, tier, seed, stats, maxd_new=3):
+    # every op sequence of length <= 2 over the whole alphabet; thorough: also every sequence of length 3 over the access /
+    # view-forming / language operations of the first version of the alphabet (the property's own path alphabet is inside it)
     depth = 2 if tier == "quick" else 3
     rng = random.Random(seed)
-    paths, n_hard = enumerate_paths(obs, depth, full_last=True, cap=None, rng=rng)
+    paths, n_hard = enumerate_paths(obs, 2, full_last=True, cap=None, rng=rng, maxd_new=maxd_new)
+    if depth == 3:
+        more, n_hard3 = enumerate_paths(obs, 3, full_last=True, cap=None, rng=rng, maxd_new=maxd_new,
+                                        step_ops=gen.OLD_ACCESS_NAMES + gen.LANG_NAMES, only_len=3)
+        base = len(paths)
+        paths += [("p%d" % (base + i), r, d, st, pred, sts) for i, (_pid, r, d, st, pred, sts) in enumerate(more)]
+        n_hard += n_hard3
     t0 = time.time()
     got = P.observe_paths([(pid, r, d, steps) for pid, r, d, steps, _pred, _sts in paths])
     stats["paths_wall_s"] = round(time.time() - t0, 1)
-    n_wf = n_const_viol = n_mut_viol = n_comp = 0
+    n_wf = n_const_viol = n_mut_viol = n_comp = n_escaped = 0
     per_root = {}
     nontrivial = set()
     samples = []
@@ -456,7 +555,10 @@ def check_paths(rep, obs, tier, seed, stats):
             if wr:
                 n_const_viol += 1
                 cu = culprit(sts, steps, True)
-                site = site_of(cu[1], cu[2]) if cu else "path:" + txt
+                if cu and cu[2] in ESCAPES:
+                    n_escaped += 1
+                    continue
+                site = site_of(cu[1], cu[2], cu[3]) if cu else "path:" + txt
                 rep.report({"clause": "const", "site": site, "found_by": "paths"}, "path " + txt + "\n",
                            {"found-by": "direct enumeration from a const root: the result is writable",
                             "implementation-said": lib, "expression": gen.path_expr(steps, "ROOT"),
@@ -465,7 +567,7 @@ def check_paths(rep, obs, tier, seed, stats):
         else:
             keeps = all(op not in INTENDED_CONST and op in ALPHABET for op in ops)
             via_owning_rvalue = any(s.split(".")[0] in OWNING and s.endswith(".R") for s in sts[:-1])
-            assignable = fk in gen.VIEW_KINDS + gen.RANGE_KINDS or (fk == "Elem" and fcat == "L")
+            assignable = assignable_kind(fk, fcat)
             if keeps and assignable and not wr and not via_owning_rvalue:
                 n_mut_viol += 1
                 cu = culprit(sts, steps, False)
@@ -477,7 +579,8 @@ def check_paths(rep, obs, tier, seed, stats):
                            "mutable root path %s is not writable (%s)" % (txt, lib))
     stats.update({"paths_depth": depth, "paths_compiled": len(paths), "paths_well_formed": n_wf,
                   "paths_skipped_hard_prefix_or_step": n_hard, "paths_composition_mismatches": n_comp,
-                  "paths_const_root_writable": n_const_viol, "paths_mutable_root_not_writable": n_mut_viol,
+                  "paths_const_root_writable": n_const_viol, "paths_const_root_writable_through_named_escape": n_escaped,
+                  "paths_mutable_root_not_writable": n_mut_viol,
                   "paths_well_formed_per_root": per_root})
     return len(paths), len(nontrivial), samples
 
@@ -517,6 +620,8 @@ def check_random_paths(rep, obs, tier, seed, stats):
                 break
         if len(steps) != len(d["ops"]):
             continue
+        if is_state(d["final"]) and (canon(d["final"][3:])[0], "BindRef") not in obs:
+            continue      # the path ends in a state outside the tied table (quick: D = 3 of the projection families)
         key = (rname, dd, tuple(d["ops"]))
         if key in seen:
             continue
@@ -564,9 +669,9 @@ def check_witnesses(rep, exe, mrows, stats):
         tag, _, name = wid.partition(".")
         spec = WITNESS.get(name)
         if spec:
-            items.append((wid, spec[0] % int(tag[1:]), spec[1]))
+            items.append((wid, spec[0] % int(tag[1:]), witness_ops(spec, int(tag[1:]))))
     model = model_eval(items)
-    n_written = 0
+    n_written = n_escape = 0
     for wid, w in sorted(W.items()):
         tag, _, name = wid.partition(".")
         spec = WITNESS.get(name)
@@ -575,7 +680,9 @@ def check_witnesses(rep, exe, mrows, stats):
         if accepted != modified:
             rep.report({"clause": "witness", "site": "accepted-but-no-effect:" + name, "found_by": "witness"}, "witness %s\n" % wid,
                        {"found-by": "run-time witness: accepted=%s modified=%s" % (accepted, modified)}, "witness %s inconsistent" % wid)
-        if name.startswith("const.") and accepted:
+        if name.startswith("const.") and accepted and spec and spec[2] == "escape":
+            n_escape += 1          # const_array_cast() / mutable_base(): the library's named ways out
+        elif name.startswith("const.") and accepted:
             n_written += 1
             rep.report({"clause": "const", "site": (spec[2] if spec and spec[2] else "witness:" + name), "found_by": "witness"},
                        "witness %s\n" % wid,
@@ -590,7 +697,7 @@ def check_witnesses(rep, exe, mrows, stats):
         # verdict on the last state must agree with what the harness saw
         m = model.get(wid)
         if m and spec:
-            full = (int(m["steps"]) == len(spec[1]))
+            full = (int(m["steps"]) == len(witness_ops(spec, int(tag[1:]))))
             ends_elem = m["final"].startswith("To:Elem")
             model_accepts = full and (m["writable"] == "1") if (ends_elem or name.endswith("_assign") or name.endswith("fill") or name == "const.ctl_assign_view") else None
             if model_accepts is not None and model_accepts != accepted:
@@ -629,7 +736,8 @@ def check_witnesses(rep, exe, mrows, stats):
                     rep.report({"clause": "rebind", "site": "trait:" + key, "found_by": "witness"}, "witness %s\n" % tid,
                                {"found-by": "monitor: a reference type is copyable / rebindable", "implementation-said": json.dumps(t)},
                                "%s %s=1" % (tid, key))
-    stats.update({"witness_cases": len(W), "witness_const_writes_observed": n_written, "reference_type_cases": len(T)})
+    stats.update({"witness_cases": len(W), "witness_const_writes_observed": n_written,
+                  "witness_const_writes_through_named_escape": n_escape, "reference_type_cases": len(T)})
     return len(W) + len(T)
 
 
@@ -660,9 +768,9 @@ def prepare(res):
 
 
 def eval_path_lines(rep, obs, pl, found_by, verbose=True):
-    """path lines `path <root> <D> <op,op,...>`: compile each as one composed expression and apply the two clauses"""
-    n = 0
-    for l in pl:
+    """path lines `path <root> <D> <op,op,...>`: compile each as one composed expression (all in one batch) and apply the two clauses"""
+    items = []
+    for j, l in enumerate(pl):
         _p, rname, d0, ops = l.split()
         st = gen.ROOT_STATE[rname] % int(d0)
         steps, sts = [], [st]
@@ -674,20 +782,24 @@ def eval_path_lines(rep, obs, pl, found_by, verbose=True):
                 break
             st = nxt[3:]
             sts.append(st)
-        got = P.observe_paths([("r0", rname, int(d0), steps)])
-        lib = got.get("r0")
+        items.append(("r%d" % j, l, rname, int(d0), ops, steps, sts))
+    got = P.observe_paths([(pid, rname, d0, steps) for pid, _l, rname, d0, _ops, steps, _sts in items]) if items else {}
+    n = 0
+    for pid, l, rname, d0, ops, steps, sts in items:
+        lib = got.get(pid)
         wr = is_state(lib) and writable_state(obs, lib[3:])
         n += 1
         if verbose:
             print("replay %s: expression %s -> %s writable=%s" % (l, gen.path_expr(steps, "ROOT"), lib, wr))
         is_const = dict(gen.ROOTS)[rname]
         hdr = {"found-by": found_by, "implementation-said": lib, "expression": gen.path_expr(steps, "ROOT")}
-        if is_const and wr:
-            cu = culprit(sts, steps, True)
-            rep.report({"clause": "const", "site": site_of(cu[1], cu[2]) if cu else "path:" + l, "found_by": "paths"}, l + "\n",
-                       hdr, "const root path %s is writable" % l)
+        if is_const and (wr or (is_state(lib) and not ro(lib[3:]))):
+            cu = culprit(sts + ([lib[3:]] if is_state(lib) and len(sts) == len(steps) else []), steps, True)
+            if not (cu and cu[2] in ESCAPES):
+                rep.report({"clause": "const", "site": site_of(cu[1], cu[2], cu[3]) if cu else "path:" + l, "found_by": "paths"}, l + "\n",
+                           hdr, "const root path %s is writable" % l)
         fk, _fd, _fc, fcat = (lib[3:].split(".") if is_state(lib) else ("", "", "", ""))
-        assignable = fk in gen.VIEW_KINDS + gen.RANGE_KINDS or (fk == "Elem" and fcat == "L")
+        assignable = is_state(lib) and assignable_kind(fk, fcat)
         if (not is_const) and assignable and not wr and all(o not in INTENDED_CONST and o in ALPHABET for o in ops.split(",")):
             cu = culprit(sts, steps, False)
             rep.report({"clause": "mutable", "site": ("gap:%s" % cu[2]) if cu else "path:" + l, "found_by": "paths"}, l + "\n",
@@ -706,7 +818,7 @@ def do_replay(res, rep, replay, exe, mrows):
             print("replay row %s %s: library %s, model %s" % (k[0], k[1], v, mrows.get(k)))
     pl = [l for l in lines if l.startswith("path ")]
     if pl:
-        obs = check_rows(rep, mrows, gen.all_rows(), res.tier, stats)
+        obs = check_rows(rep, mrows, gen.all_rows(maxd=3, maxd_new=3), res.tier, stats)
         eval_path_lines(rep, obs, pl, "replay")
     if any(l.startswith("witness ") for l in lines):
         if exe:
@@ -719,27 +831,35 @@ def do_replay(res, rep, replay, exe, mrows):
 
 def run(tier, seed, replay=None):
     res = core.Result(PID, tier, seed, level="proof")
+    t_start = time.time()
     prep = prepare(res)
+    t_prep = time.time() - t_start
     if prep is None:
         return res.finish()
     coq, exe, deferred = prep
     rep = Reporter(res)
     maxd = 3 if tier == "quick" else 4      # thorough also ties D = 4 (class D >= 3 of the model) row by row
-    mrows = model_rows(maxd)
+    maxd_new = 2 if tier == "quick" else 3  # the kinds over the pointer families of the projections (classes D = 1, D = 2; thorough: D >= 3 too)
+    mrows = model_rows(maxd, maxd_new)
     if replay:
-        do_replay(res, rep, replay, exe, mrows)
+        do_replay(res, rep, replay, exe, model_rows(maxd, 3))
         return res.finish()
-    stats = {"table_max_D": maxd}
-    rows = gen.all_rows(maxd=maxd)
+    stats = {"table_max_D": maxd, "table_max_D_projection_families": maxd_new, "prepare_wall_s": round(t_prep, 1)}
+    rows = gen.all_rows(maxd=maxd, maxd_new=maxd_new)
     obs = check_rows(rep, mrows, rows, tier, stats)
     monitor_rows(rep, obs, stats)
+    t0 = time.time()
     n_w = check_witnesses(rep, exe, mrows, stats) if exe else 0
+    stats["witness_wall_s"] = round(time.time() - t0, 1)
     corpus_lines = []
     for f in sorted(glob.glob(os.path.join(core.VERIF, "corpus", PID, "*.prog"))):
         corpus_lines += [l.strip() for l in open(f) if l.startswith("path ")]
     stats["corpus_paths"] = eval_path_lines(rep, obs, sorted(set(corpus_lines)), "corpus (past findings, re-run first)", verbose=False)
-    n_paths, n_nontrivial, path_samples = check_paths(rep, obs, tier, seed, stats)
+    n_paths, n_nontrivial, path_samples = check_paths(rep, obs, tier, seed, stats, maxd_new)
+    t0 = time.time()
     n_rand, rand_samples = check_random_paths(rep, obs, tier, seed, stats)
+    stats["random_paths_wall_s"] = round(time.time() - t0, 1)
+    stats["total_wall_s"] = round(time.time() - t_start, 1)
     rep.flush()
     if not res.violations:
         for step, log in deferred:
@@ -754,20 +874,30 @@ def run(tier, seed, replay=None):
         key = v.split(":")[0] if not v.startswith("To:") else "To"
         outcomes[key] = outcomes.get(key, 0) + 1
     row_samples = [{"state": k[0], "op": k[1], "library": obs[k], "model": mrows.get(k)}
-                   for k in [("Arr.2.c.L", "Begin"), ("It10.2.m.R", "Index"), ("CSub0.2.m.R", "Elements"), ("Sub0.3.c.L", "Taked")] if k in obs]
+                   for k in [("Arr.2.c.L", "Begin"), ("It10.2.m.R", "Index"), ("CSub0.2.m.R", "Elements"), ("Sub0.3.c.L", "Taked"),
+                             ("SubTmR.2.c.L", "Index"), ("CSubTmR.1.m.R", "Index"), ("It10.2.m.R", "CvI0m"), ("SP10.2.m.R", "CvI0m"),
+                             ("ArrS.2.c.L", "ETransMP"), ("PtTmC.0.m.R", "CvE0m")] if k in obs]
     res.coverage.update({
         "evaluations": len(obs) + n_paths + n_rand + n_w,
         "distinct_nontrivial": n_nontrivial + n_rand,
         "exhaustive": True,
-        "rule": "(1) EVERY row (state, op) of the const automaton for D=1..3: 25 kinds x {1,2,3} (0 for pointers/element refs) x "
-                "{mutable,const} x {lvalue,rvalue} x 53 operations minus the NA rows = %d compiled probes, each compared with the "
-                "extracted model's row (exhaustive, not sampled); rows the model or the run finds ill-formed beyond SFINAE are compiled "
-                "alone and must fail (Hard) or must fail to link (NoDef). (2) every op sequence of length <= %d over the %d access / "
-                "language operations from the 6 kinds of root x D=1..3 whose prefixes are well-formed, as ONE composed C++ expression "
-                "each; non-trivial = length >= 2, distinct by (root, D, op sequence). (3) %s generated paths of length 3..%d from the "
-                "model (driver_c16 paths, every choice from the seed, language-level steps down-weighted), distinct by (root, D, ops), "
-                "all counted non-trivial. (4) run-time write attempts and reference-type checks of h_const_witness."
-                % (len(obs), stats.get("paths_depth"), len(STEP_OPS), stats.get("random_paths_generated"), 6 if tier == "quick" else 8),
+        "rule": "(1) EVERY row (state, op) of the const automaton: 93 kinds -- the 25 over int* / int const* for D=1..%d, the 68 over the "
+                "pointer families of the projections (transform_ptr over S* / S const* with reference int&, int const&, int; move_ptr; the "
+                "struct-element sources) for D=1..%d; 0 for pointers/element refs -- x {mutable,const} x {lvalue,rvalue} x 99 operations "
+                "(46 access / view-forming, 12 projections and casts, 5 other element-access members, 12 handle conversions "
+                "{implicit,explicit,assignment} x {iterator,const_iterator} x {mutable,const pointer}, 2 comparisons, 12 view constructions, "
+                "3 decays, 3 language steps, 4 mutators) minus the NA rows = %d compiled probes, each compared with the extracted model's row "
+                "(exhaustive, not sampled); rows the model or the run finds ill-formed beyond SFINAE are compiled as must-fail functions "
+                "(an error at the row's own line, else alone) and must fail (Hard) or must fail to link (NoDef). (2) every op sequence of "
+                "length <= 2 over the %d access / conversion / language operations from the 12 kinds of root (array, array const, "
+                "static_array, array_ref, view by auto&& / auto const&; struct array, struct array const, projection view and element_moved "
+                "view by auto&& / auto const&) x D=1..3 whose prefixes are well-formed%s, as ONE composed C++ expression each; non-trivial = "
+                "length >= 2, distinct by (root, D, op sequence). (3) %s generated paths of length 3..%d from the model (driver_c16 paths, "
+                "every choice from the seed, language-level steps down-weighted), distinct by (root, D, ops), all counted non-trivial. "
+                "(4) run-time write attempts and reference-type checks of h_const_witness (projection views, casts, conversions included)."
+                % (maxd, maxd_new, len(obs), len(STEP_OPS),
+                   "" if tier == "quick" else ", and every sequence of length 3 over the 49 operations of the first alphabet",
+                   stats.get("random_paths_generated"), 6 if tier == "quick" else 8),
         "samples": row_samples + path_samples + rand_samples,
         "generator_distribution": stats.pop("random_paths_distribution", {}),
         "table_rows_compared": len(obs),
@@ -775,13 +905,21 @@ def run(tier, seed, replay=None):
         "known_finding_hits": rep.known_sites,
         "violations_beyond_known": rep.n_viol,
         "stats": stats,
-        "not_exercised": ["apply(tuple), operator[](tuple), element_moved/element_transformed/casts, "
-                          "free-function forms (begin(x), data(x), ...): not in the property's quantifier; mutable_base()/mbase() const "
-                          "(public escape hatches returning element_ptr) are outside it as well",
-                          "element types other than int and non-default layouts / fancy pointers: assumed not to change overload resolution",
-                          "D >= 4 rows are tied only through the uniformity of the class templates in D (classes 0|1|2|>=3 of the model)"],
+        "not_exercised": ["operator[](tuple) (deprecated BMA compatibility, 1-D), free-function forms (begin(x), data(x), ...: they forward to the "
+                          "members), tiled, assign(it), array_ptr (explicit from array*: its constructor from array const* is accepted and does "
+                          "not instantiate), mbase() const& (returns element_ptr& from a const object: never instantiates)",
+                          "results outside the fragment are absorbing (To:Other): move() / move_subarray, element_moved of a view over int const*, "
+                          "static_array_cast<T const>() (element type int const), struct elements themselves, projections of projections",
+                          "functors other than the four of the probes (&S::b, S& -> int&, S const& -> int const&, S const& -> int); the "
+                          "transform_ptr kinds are functor-agnostic, their canonical receiver types carry &S::b (value families: the value "
+                          "functor); conversions after another functor and in the value families have no rows",
+                          "element types other than int and struct {int a; int b;}, non-default layouts: assumed not to change overload resolution",
+                          "quick ties the projection families at D = 1, 2 (classes D = 1 and D = 2 of the model), thorough at D = 1..3; D >= 4 rows "
+                          "are tied only through the uniformity of the class templates in D (classes 0|1|2|>=3 of the model)"],
     })
-    res.assumptions = ["g++ 12 / libstdc++ as installed; -std=c++17", "element type int, default layout, raw pointers",
+    res.assumptions = ["g++ 12 / libstdc++ as installed; -std=c++17", "element type int (struct S for the projection sources), default layout",
+                       "a prvalue and an xvalue of the same type are one state: view construction T(prvalue T) (guaranteed elision) is composed "
+                       "only as the single step on a root",
                        "the type and value category of an expression determine overload resolution on it (C++ language rule); "
                        "checked on every enumerated path by comparing the composed expression with the chain of single steps",
                        "rows for D above 3 behave like D = 3 (the library specialises only D = 0 and D = 1)"]
